@@ -163,6 +163,7 @@ type Hand struct {
 	Replaying   bool
 	ReplayTrace []TraceStep // replay: execute exactly these steps (probe steps are re-made by the monitor)
 	replayPos   int
+	lastInc     int64 // size of the last bet or raise actually made in this round, as seen by the driver (0 = none yet)
 }
 
 func (h *Hand) caseJSON() interface{} {
@@ -208,6 +209,7 @@ type Monitor interface {
 	End(h *Hand, s *pokerface.GameState)                                                  // at GameClosed
 	Panic(h *Hand, what string)                                                           // the engine panicked
 	Stuck(h *Hand, why string)                                                            // driver cannot continue (not a wait point, expected step refused, ...)
+	QueryChanged(h *Hand, what string)                                                    // read-only queries changed the state
 }
 
 type BaseMon struct{}
@@ -218,6 +220,7 @@ func (BaseMon) After(*Hand, *pokerface.GameState, Op, error, *pokerface.GameStat
 func (BaseMon) End(*Hand, *pokerface.GameState)                                    {}
 func (BaseMon) Panic(h *Hand, what string)                                         { h.Rep.Inc("hands_panicked") }
 func (BaseMon) Stuck(h *Hand, why string)                                          { h.Rep.Inc("hands_stuck") }
+func (BaseMon) QueryChanged(h *Hand, what string)                                  { h.Rep.Inc("read_only_queries_changed_state") }
 
 const maxHandSteps = 6000
 
@@ -255,6 +258,27 @@ func playHand(h *Hand, mon Monitor) {
 		}
 		s := g.GetState()
 		ev := s.Status.CurrentEvent
+		if c.Noise && h.ReplayTrace == nil && h.R.Intn(4) == 0 || h.replayQuery() {
+			// read-only queries a table or a bot may make at any time: they must not change anything
+			before := snapJSON(s)
+			for i := 0; i < len(s.Players); i++ {
+				if p := g.Player(i); p != nil {
+					g.GetAvailableActions(p)
+					g.GetAllowedActions(p)
+				}
+			}
+			g.GetAlivePlayerCount()
+			g.GetMovablePlayerCount()
+			g.GetStateJSON()
+			h.Rep.Inc("read_only_query_rounds")
+			h.Trace = append(h.Trace, TraceStep{Op: Op{Name: "query", Seat: -1}, Kind: "query"})
+			if after := snapJSON(g.GetState()); after != before {
+				mon.QueryChanged(h, fmt.Sprintf("read-only queries (GetAvailableActions / GetAllowedActions for every seat, counters, GetStateJSON) at %s changed the state:\n before=%s\n after =%s", ev, before, after))
+				if h.Aborted {
+					return
+				}
+			}
+		}
 		mon.Wait(h, s)
 		if h.Aborted {
 			return
@@ -267,7 +291,7 @@ func playHand(h *Hand, mon Monitor) {
 		var op Op
 		kind := ""
 		if h.ReplayTrace != nil {
-			for h.replayPos < len(h.ReplayTrace) && h.ReplayTrace[h.replayPos].Kind == "probe" {
+			for h.replayPos < len(h.ReplayTrace) && (h.ReplayTrace[h.replayPos].Kind == "probe" || h.ReplayTrace[h.replayPos].Kind == "query") {
 				h.replayPos++
 			}
 			if h.replayPos >= len(h.ReplayTrace) {
@@ -291,7 +315,7 @@ func playHand(h *Hand, mon Monitor) {
 				} else if refusals >= 3 {
 					op = fallbackAction(s)
 				} else {
-					op = chooseAction(h.R, s, c)
+					op = chooseAction(h.R, s, c, h.lastInc)
 				}
 			default:
 				mon.Stuck(h, "not-a-wait-point: "+ev)
@@ -324,6 +348,18 @@ func playHand(h *Hand, mon Monitor) {
 			h.Trace[len(h.Trace)-1].Err = err.Error()
 		}
 		h.Rep.Inc("operations")
+		if post := g.GetState(); post.Status.Round != pre.Status.Round {
+			h.lastInc = 0
+		} else if d := maxWager(post) - maxWager(pre); d > 0 && pre.Status.CurrentEvent == "RoundStarted" {
+			if op.Name != "call" {
+				h.lastInc = d
+			}
+		} else if op.Name == "blinds" && err == nil {
+			h.lastInc = c.BB
+			if h.lastInc == 0 {
+				h.lastInc = c.Dl
+			}
+		}
 		mon.After(h, pre, op, err, g.GetState())
 		if h.Aborted {
 			return
@@ -415,4 +451,13 @@ func noiseOp(r *rand.Rand, ev string) Op {
 		}
 	}
 	return cands[r.Intn(len(cands))]
+}
+
+// replayQuery: in replay mode, is the next recorded step a round of read-only queries?
+func (h *Hand) replayQuery() bool {
+	if h.ReplayTrace == nil || h.replayPos >= len(h.ReplayTrace) || h.ReplayTrace[h.replayPos].Kind != "query" {
+		return false
+	}
+	h.replayPos++
+	return true
 }
